@@ -506,6 +506,9 @@ fn gen_data(r: &mut Xo, n: usize, p: usize, f32m: bool) -> (Vec<Vec<f64>>, &'sta
     let kind = r.below(8);
     // scales down to 1e-4: blob spreads are then >= 1e-6, still 10000x the tree's absolute 1e-10 merge radius
     let scale = *r.pick(&[0.01, 1.0, 1.0, 10.0, 1000.0, 1e-4]);
+    // sometimes a range whose squares are still far from overflow but whose fourth powers are not (the property
+    // sets no bound on magnitude): 3e10 in single (far-away centroids and queries, up to 1e6 ranges out, must still have finite squares), 1e100 in double precision
+    let scale = if r.chance(0.04) { if f32m { 3e10 } else { 1e100 } } else { scale };
     let offset = if r.chance(0.3) { scale * r.range(-20.0, 20.0) } else { 0.0 };
     let mut data: Vec<Vec<f64>> = Vec::with_capacity(n);
     let name;
@@ -763,6 +766,20 @@ fn gen_case(batch: &str, _index: u64, seed: u64) -> Case {
     let tape_seed = Xo::fork(seed, "schedule").u64();
     let f32m = batch == "fit-f32" || batch == "direct-f32";
     let crowded = batch == "fit-crowded";
+    if batch == "fit-tie-lattice" {
+        // one or two coordinates on a zero-centred lattice with a step that is not a dyadic rational (0.1, 1/3, 0.7,
+        // 0.3): rows sit exactly halfway between centroids, ties are re-broken when a recomputed centroid changes in
+        // its last bit, and the computed distortion can go UP by an ulp between two Lloyd steps. Full-length fits.
+        let p = if pr.chance(0.7) { 1 } else { 2 };
+        let n = pr.usize_in(12, 60);
+        let half = pr.usize_in(2, 5) as i64;
+        let step = *pr.pick(&[0.1, 0.1, 1.0 / 3.0, 0.7, 0.3]);
+        let data: Vec<Vec<f64>> = (0..n).map(|_| (0..p).map(|_| (r.below(2 * half as u64 + 1) as i64 - half) as f64 * step).collect()).collect();
+        let mut data = data;
+        let mut k = pr.usize_in(2, 3).min(n);
+        ensure_distinct(&mut data, &mut k, false);
+        return Case { mode: "fit".into(), data, k, max_iter: 100, f32m: false, centroids: vec![], queries: vec![], tape: TapeSpec::prng(tape_seed), kind: "tie-lattice/prng".into(), ctor: pr.below(6) as u8 };
+    }
     let n = if crowded { pr.usize_in(4, 12) } else if pr.chance(0.5) { pr.usize_in(2, 40) } else { pr.usize_in(2, 300) };
     let p = if crowded { pr.usize_in(1, 2) } else { pr.usize_in(1, 6) };
     let (mut data, mut dname) = gen_data(&mut r, n, p, f32m);
@@ -911,6 +928,7 @@ impl Property for C12 {
             Batch { name: "fit-exhaustive-small", count: tiny_plans().len() as u64, simulated: true, exhaustive: true, note: "six fixed data sets of 4..6 rows (duplicates, lattice, collinear): every tuple of rows k-means++ can be steered to (first index x every D^2 slice) for k = 2, 3, forced through the RNG seam" },
             Batch { name: "fit-prng", count: if q { 60_000 } else { 4_000_000 }, simulated: true, exhaustive: false, note: "k-means++ draws served from the seeded PRNG tape; in-run probe judged at every Lloyd step" },
             Batch { name: "fit-crowded", count: if q { 40_000 } else { 2_000_000 }, simulated: true, exhaustive: false, note: "4..12 rows, up to 8 clusters: coarse lattices (clusters empty out and are re-populated) and near-duplicate pairs a relative 1e-6..1e-12 of the range apart (>= 1e-8 absolute)" },
+            Batch { name: "fit-tie-lattice", count: if q { 150_000 } else { 4_000_000 }, simulated: true, exhaustive: false, note: "12..60 rows on a zero-centred lattice with a non-dyadic step in 1 or 2 columns, k = 2..3, full-length fits: rows exactly halfway between centroids, ties re-broken by last-bit changes, distortion rising by an ulp" },
             Batch { name: "fit-extreme", count: if q { 40_000 } else { 2_000_000 }, simulated: true, exhaustive: false, note: "extreme words (cut-off 0.0, 1-2^-53, first/last row) injected at random draw sites" },
             Batch { name: "fit-forced-first", count: if q { 12_000 } else { 500_000 }, simulated: true, exhaustive: false, note: "first centroid forced onto a chosen (often duplicated / last) row" },
             Batch { name: "fit-f32", count: if q { 12_000 } else { 500_000 }, simulated: true, exhaustive: false, note: "same as fit-prng in single precision (tolerances scaled)" },
